@@ -22,3 +22,4 @@ MUTANTS = [
 MUTANTS.append(dict(name="unstructure-fn-memoised-on-class-inherited-lookup", file="core/cattrs_converter.py", expect="R16.9",
     old='                return _make_dataclass_unstructure_fn(captured_cls)(obj)\n', new='                fn = getattr(captured_cls, "_cattrs_unstructure_fn", None)\n                if fn is None:\n                    fn = _make_dataclass_unstructure_fn(captured_cls)\n                    setattr(captured_cls, "_cattrs_unstructure_fn", fn)\n                return fn(obj)\n'))
 MUTANTS.append(dict(name="none-stripping-fast-path-skips-descent", file='core/utils.py', expect="R16.10", old='            return {k: DataclassSerializer._remove_none_values(v) for k, v in obj.items() if v is not None}\n', new='            if all(v is not None for v in obj.values()):\n                return obj\n            return {k: DataclassSerializer._remove_none_values(v) for k, v in obj.items() if v is not None}\n'))
+MUTANTS.append(dict(name="decode-side-derives-camel-key", file="core/cattrs_converter.py", expect='R16.11', old='            json_key = python_name  # Default: no transformation\n', new='            json_key = snake_to_camel(python_name)  # Default\n', count=2, also="first-only"))
